@@ -226,5 +226,6 @@ func appendArrayElemIndent(ctx *encoder.RuntimeContext, code *encoder.Opcode, b 
 }
 
 func appendMapKeyIndent(ctx *encoder.RuntimeContext, code *encoder.Opcode, b []byte) []byte {
-	return appendIndent(ctx, b, code.Indent)
+	// the key opcodes carry the indent level of the map itself: members are one level deeper
+	return appendIndent(ctx, b, code.Indent+1)
 }
